@@ -145,8 +145,12 @@ def run_case(torf, wd, c):
                    'hash': None if ph is None else bytes(ph).hex(), 'now': sched.now,
                    'exc': None if exc is None else exc_obs(torf, exc, index_of, cb_exc)}
         rec['at_step'] = len(sched.trace)
+        nth = sum(1 for cl in calls if cl['done'] == done)      # earlier calls for the same piece
         calls.append(rec)
         d = (cbspec.get('table') or {}).get(str(done))
+        if d == 'cancel-first':
+            # ask to stop for the first error of a piece only; answer None to its further errors
+            d = 'cancel' if nth == 0 else None
         if d == 'cancel':
             return True
         if d == 'raise':
